@@ -103,5 +103,73 @@ Definition dbilinear (x A y : dense) : dense :=
   mkD [] (fun _ => sum_idx (dshape x) (fun is_ => sum_idx (dshape y) (fun js =>
                      rconj (dget x is_) * dget A (is_ ++ js) * dget y js))).
 
+(* ---- structural operations (C09) ---- *)
+Fixpoint upd (k v : nat) (l : list nat) : list nat :=
+  match l, k with
+  | [], _ => []
+  | _ :: t, O => v :: t
+  | a :: t, S k' => a :: upd k' v t
+  end.
+(* torch.cat((a, b), dim) *)
+Definition dcat (dim : nat) (a b : dense) : dense :=
+  let na := nth dim (dshape a) 0%nat in
+  mkD (upd dim (na + nth dim (dshape b) 0)%nat (dshape a))
+      (fun idx => let i := nth dim idx 0%nat in
+                  if (i <? na)%nat then dget a idx else dget b (upd dim (i - na)%nat idx)).
+(* constant padding: padding = (before, after) for every mode *)
+Fixpoint pad_shape (ns : list nat) (padding : list (nat * nat)) : list nat :=
+  match ns, padding with
+  | n :: nt, (b, a) :: pt => (b + n + a)%nat :: pad_shape nt pt
+  | _, _ => []
+  end.
+Fixpoint in_block (ns : list nat) (padding : list (nat * nat)) (idx : list nat) : option (list nat) :=
+  match ns, padding, idx with
+  | n :: nt, (b, _) :: pt, i :: it =>
+      if (b <=? i)%nat && (i <? b + n)%nat
+      then match in_block nt pt it with Some t => Some ((i - b)%nat :: t) | None => None end
+      else None
+  | _, _, _ => Some []
+  end.
+Definition dpad (a : dense) (padding : list (nat * nat)) (value : R) : dense :=
+  mkD (pad_shape (dshape a) padding)
+      (fun idx => match in_block (dshape a) padding idx with Some i' => dget a i' | None => value end).
+(* block-diagonal padding of an operator of shape M ++ N (d modes each): original block kept, value on the
+   diagonal of the leading and of the trailing corner block, zero elsewhere *)
+Fixpoint lead_diag (padding : list (nat * nat)) (is_ js : list nat) : bool :=
+  match padding, is_, js with
+  | (b, _) :: pt, i :: it, j :: jt => Nat.eqb i j && (i <? b)%nat && lead_diag pt it jt
+  | _, _, _ => true
+  end.
+Fixpoint trail_diag (ms ns : list nat) (padding : list (nat * nat)) (is_ js : list nat) : bool :=
+  match ms, ns, padding, is_, js with
+  | m :: mt, n :: nt, (b, _) :: pt, i :: it, j :: jt =>
+      (b + m <=? i)%nat && (b + n <=? j)%nat && Nat.eqb (i - (b + m)) (j - (b + n)) && trail_diag mt nt pt it jt
+  | _, _, _, _, _ => true
+  end.
+Definition dpad_op (d : nat) (A : dense) (padding : list (nat * nat)) (value : R) : dense :=
+  let ms := firstn d (dshape A) in let ns := skipn d (dshape A) in
+  mkD (pad_shape ms padding ++ pad_shape ns padding)
+      (fun idx => let is_ := firstn d idx in let js := skipn d idx in
+         match in_block ms padding is_, in_block ns padding js with
+         | Some i', Some j' => dget A (i' ++ j')
+         | _, _ => if lead_diag padding is_ js || trail_diag ms ns padding is_ js then value else 0
+         end).
+(* diagonal embedding / extraction *)
+Definition ddiag_embed (a : dense) : dense :=
+  let d := length (dshape a) in
+  mkD (dshape a ++ dshape a)
+      (fun idx => dget a (firstn d idx) *
+                  fold_right (fun ij acc => delta (fst ij) (snd ij) * acc) 1 (combine (firstn d idx) (skipn d idx))).
+Definition ddiag_extract (d : nat) (A : dense) : dense :=
+  mkD (map (fun mn => Nat.min (fst mn) (snd mn)) (combine (firstn d (dshape A)) (skipn d (dshape A))))
+      (fun idx => dget A (idx ++ idx)).
+(* mode product along mode k with the l x n_k matrix M *)
+Definition dmprod (a : dense) (k l : nat) (M : nat -> nat -> R) : dense :=
+  mkD (upd k l (dshape a))
+      (fun idx => sum_n (nth k (dshape a) 0%nat) (fun j => M (nth k idx 0%nat) j * dget a (upd k j idx))).
+(* tensor of shape N seen as an operator of shape N x 1...1 *)
+Definition dto_op (a : dense) : dense :=
+  mkD (dshape a ++ map (fun _ => 1%nat) (dshape a)) (fun idx => dget a (firstn (length (dshape a)) idx)).
+
 End Dense.
 Arguments dense R : clear implicits.
